@@ -645,6 +645,40 @@ def r19_15(ctx, rep):
            "found %s" % [norm(a)[:60] for a in al])
 
 
+@SPEC.rule(
+    "R19.16",
+    "every request is answered from the cache file and the current options, not from what the process loaded before: no function of "
+    "casadi/api.py writes a module-level container or is wrapped in a caching decorator — a memo of loaded models keyed by the cache file "
+    "(and its timestamp) returns the model of the option set it was first asked with",
+)
+def r19_16(ctx, rep):
+    from .c25 import module_state_free
+    module_state_free(ctx, rep, "R19.16", API, "the CasADi API (transfer_model, load_model, save_model and their helpers)")
+
+
+@SPEC.rule(
+    "R19.17",
+    "whether a cached attribute must be re-evaluated with the parameters is decided by whether the parameters occur in it: the test in "
+    "save_model that marks an attribute as parameter-dependent calls ca.depends_on(<attribute>, <parameter vector>) — a sensitivity test "
+    "(`jacobian(...).is_zero()`) calls `max = if limited then 10 else 1000` independent, and load_model freezes it at the value it has for "
+    "NaN parameters",
+)
+def r19_17(ctx, rep):
+    R = "R19.17"
+    fn = api_fn(ctx, "save_model", R)
+    site = API + ":save_model"
+    n = 0
+    for st in ast.walk(fn):
+        if isinstance(st, ast.If) and any(isinstance(x, ast.Assign) and "MX_DEPENDENT" in norm(x.value) for x in st.body + st.orelse):
+            n += 1
+            dep = [c for c in ast.walk(st.test) if isinstance(c, ast.Call) and (call_name(c) or "").split(".")[-1] == "depends_on" and len(c.args) == 2]
+            deriv = [c for c in ast.walk(st.test) if isinstance(c, ast.Call) and (call_name(c) or "").split(".")[-1] in ("jacobian", "gradient", "hessian", "is_zero")]
+            rep.ob(R, site, "parameter dependence is structural", bool(dep) and not deriv,
+                   "the test is `%s`" % norm(st.test)[:90])
+    if n < 1:
+        raise MechanismMissing(R, "the classification of attributes as parameter-dependent was not found in save_model")
+
+
 # -- seeded variants ---------------------------------------------------------
 from ._mut import delete_stmt_where, replace_in_func  # noqa: E402
 
